@@ -354,6 +354,7 @@ theorem sameLayerNodes_phase4Model (cfg : Cfg) (g g' : G) (h : phase4Model cfg g
         · cases h1
         · simp only [pure, Except.pure, Except.ok.injEq] at h1; subst h1
           exact sameLayerNodes_bkWrite _ _ _
+    · simp only [pure, Except.pure, Except.ok.injEq] at h; subst h; exact SameLayerNodes.refl _
     · cases h
 
 /-- END TO END: also after positioning the layer lists are well formed -/
